@@ -245,8 +245,12 @@ def _ba_samples():
                     for dtype in ("uint8", "float32") if not thorough else ("uint8", "int16", "float32"):
                         for fill in (None, 7, -1, float("nan")):  # incl. fills the blocks' dtype cannot hold
                             yield dict(chy=chy, chx=chx, present=present, axis=axis, extra=extra, dtype=dtype, fill=fill)
+        # wide integers next to a float fill: the common type must hold every pixel EXACTLY (float32 cannot beyond 2**24)
+        for dtype in ("int32", "uint32", "int64"):
+            for fill in (float("nan"), 0.5, None):
+                yield dict(chy=(2, 1), chx=(1, 3), present=[(0, 0), (1, 1)], axis=0, extra=(), dtype=dtype, fill=fill)
 
-    return "4 chunkings (1-3 tiles per axis, tile sides 1-3) x 5 subsets of present blocks (all / alternating / one / none) x 3 axis layouts (YX, T-YX, YX-B) x 2-3 dtypes x fill None / 7 / -1 / NaN (incl. fills the blocks' dtype cannot hold); every window of the mosaic for the smaller cases, 12 windows otherwise", gen()
+    return "4 chunkings (1-3 tiles per axis, tile sides 1-3) x 5 subsets of present blocks (all / alternating / one / none) x 3 axis layouts (YX, T-YX, YX-B) x 2-3 dtypes (+ int32 / uint32 / int64 near their maximum with a float fill) x fill None / 7 / -1 / NaN (incl. fills the blocks' dtype cannot hold); every window of the mosaic for the smaller cases, 12 windows otherwise", gen()
 
 
 def _ba_oracle(args, run=None):
@@ -264,7 +268,8 @@ def _ba_oracle(args, run=None):
     post = extra if (axis == 0 and extra) else ()
     full_shape = (*pre, ny, nx, *post)
     rng = np.random.default_rng(ny * 31 + nx)
-    truth = rng.integers(1, 250 if np.dtype(dtype).itemsize == 1 else 30000, size=full_shape).astype(dtype)  # values a narrower type of another kind would wrap / round
+    hi = {1: 250, 2: 30000}.get(np.dtype(dtype).itemsize, int(min(np.iinfo(dtype).max if np.dtype(dtype).kind in "iu" else 2**24, 2**52)))
+    truth = rng.integers(max(1, hi - 1000) if hi > 30000 else 1, hi, size=full_shape).astype(dtype)  # values a narrower type of another kind would wrap / round
     blocks = {}
     for iy, ix in present:
         sl = (*(slice(None) for _ in pre), slice(oy[iy], oy[iy + 1]), slice(ox[ix], ox[ix + 1]), *(slice(None) for _ in post))
